@@ -255,6 +255,7 @@ func init() {
 		Rules: []func(*Ctx){
 			func(c *Ctx) { c.ruleTable("R-TABLE") },
 			func(c *Ctx) { c.ruleMetaBound("R-METABOUND"); c.R.Floor("R-METABOUND", 10) },
+			func(c *Ctx) { c.ruleKeyKinds("R-KEYKINDS"); c.R.Floor("R-KEYKINDS", 2) },
 			func(c *Ctx) { c.ruleForward("R-FORWARD") },
 		},
 	})
